@@ -457,6 +457,8 @@ def check(mod, prop, tier, seed, t0, workdir, args):
             bad_model, bad_spec, out_scope, cerrors = coq_eval(mod, cases, obs, os.path.join(COQ, "CorrRun", prop))
         for e in cerrors:
             tie_broken.append({"kind": "correspondence-eval", "what": corr_v, "detail": e})
+    if not corr_built:
+        log(f"[{prop}] correspondence: model side NOT EVALUATED (CorrDefs did not build); implementation judged by the Python spec only")
     log(f"[{prop}] correspondence: cases={len(cases)} impl-vs-model mismatches={len(bad_model)} "
         f"coq-spec failures={len(bad_spec)} python-spec failures={len(py_bad)} outside-model-scope={len(out_scope)}")
 
